@@ -59,6 +59,8 @@ def rand_http_sig(R):
     for _ in range(R.randint(0, 6)):
         r = R.random()
         name = R.choice(HDR_NAMES)
+        if R.random() < 0.1:
+            name = R.choice([" " + name, name + " ", "\t" + name, name + "\t ", " " + name + " "])      # blanks around a token belong to the NAME (tokens are cut at ',' only)
         if R.random() < 0.3:
             name = "?" + name
         if r < 0.4:
